@@ -151,6 +151,13 @@ def run_active(case, drv):
             d = g.is_dconnected(pn[x], pn[y], observed=[pn[v] for v in obs] or None)
             if bool(d) != (y in m[x]["spec"]):
                 return fail(f"is_dconnected({pn[x]!r},{pn[y]!r}|{obs}) = {d}")
+        # a latent START with a visible end: the answer is still the d-connection of the two nodes (only latent END points are hidden)
+        for x in lat:
+            for y in range(n):
+                if y != x and y not in lat and x not in obs and y not in obs:
+                    d = g.is_dconnected(pn[x], pn[y], observed=[pn[v] for v in obs] or None)
+                    if bool(d) != (y in m[x]["spec"]):
+                        return fail(f"is_dconnected(latent {pn[x]!r}, {pn[y]!r} | {obs}) = {d}, d-connected: {y in m[x]['spec']}")
     return ok(nontrivial=len(edges) > 0, n=n, nobs=len(obs), names=str(case["names"])[:6], cont=case["cont"])
 
 
